@@ -34,6 +34,8 @@ def pin_env(scratch: str) -> None:
         sys.path.remove(REPO)
     sys.path.insert(0, REPO)
     os.environ["PYTHONPATH"] = REPO
+    if os.environ.get("VERIF_COV_SITE"):  # tools/covmap.py: coverage measurement inside worker processes too
+        os.environ["PYTHONPATH"] = REPO + os.pathsep + os.environ["VERIF_COV_SITE"]
 
 
 # ---------------------------------------------------------------- Coq literals
